@@ -129,8 +129,9 @@ class Check(object):
         if rec is not None:
             line = 'KNOWN-FINDING: property=%s %s' % (self.prop, rec['what'])
             if rec['id'] not in [k['id'] for k in self.known_hits]:
-                print(line)
-                sys.stdout.flush()
+                if not getattr(self, 'quiet_known', False):
+                    print(line)
+                    sys.stdout.flush()
                 self.known_hits.append({'id': rec['id'], 'what': rec['what'], 'instance': what})
             return 'known'
         path = replay_script or ''
